@@ -304,6 +304,7 @@ def run(ctx):
         c17b(ctx, tu)
         c17c(ctx, tu)
         c17d(ctx, tu)
+        C08.c08h(ctx, tu, rule="C17.b.exc.escape")   # recording the exception must not replace it
         c17e(ctx, tu)
         c17f(ctx, tu)
         units.append({"unit": tu.name, "functions": len(tu.fns)})
